@@ -318,6 +318,11 @@ def subst(sl, rules):
 # running tools
 # --------------------------------------------------------------------------
 
+def _trim(out):
+    """Drop CBMC's raw backtrace lines from tool output."""
+    return '\n'.join(l for l in out.split('\n') if not re.match(r'^(goto-cc|goto-instrument|cbmc|/lib/)\S*\(?\+?0x|^/lib/x86_64', l))
+
+
 def sh(cmd, cwd, timeout, log=None, stdout_path=None):
     """Run argv under timeout and ulimit -v.  Returns (rc, stdout+stderr text, seconds)."""
     t0 = time.time()
@@ -334,6 +339,7 @@ def sh(cmd, cwd, timeout, log=None, stdout_path=None):
     except subprocess.TimeoutExpired as e:
         rc, out = 124, "TIMEOUT after %ss: %s" % (timeout, ' '.join(cmd))
     dt = time.time() - t0
+    out = _trim(out)
     if log:
         with open(log, "a") as f:
             f.write("$ %s\n[rc=%s, %.1fs]\n%s\n" % (' '.join(cmd), rc, dt, out[-20000:]))
